@@ -65,6 +65,11 @@ fn attr_dump<R: Reader<Offset = usize>>(v: &AV<R>, enc: Encoding) -> gimli::Resu
             while let Some(op) = ops.next()? {
                 out.push(match op {
                     gimli::Operation::Address { address } => json!(["Address", bv(address, 8)]),
+                    // operands that are offsets / indices (no reader inside): print them in full
+                    op @ (gimli::Operation::Call { .. }
+                    | gimli::Operation::ImplicitPointer { .. }
+                    | gimli::Operation::VariableValue { .. }
+                    | gimli::Operation::AddressIndex { .. }) => json!([format!("{:?}", op)]),
                     other => json!([vname(&other)]),
                 });
             }
@@ -161,7 +166,7 @@ fn dump_frame<R: Reader<Offset = usize>>(main: R, asz: u8) -> gimli::Result<Vec<
 
 fn run_dump<R: Reader<Offset = usize>>(kind: &str, ver: u16, asz: u8, main: R, aux: &dyn Fn(&str) -> R) -> Value {
     let r = match kind {
-        "unit" | "unit64" => dump_unit(main, aux("abbrev")),
+        "unit" | "unit64" | "expr" => dump_unit(main, aux("abbrev")),
         "line4" | "line5" => dump_line(main, asz),
         "ranges" => dump_ranges(main, aux("none"), ver, asz),
         "rnglists" => dump_ranges(aux("none"), main, ver, asz),
@@ -310,7 +315,7 @@ fn addr(symbolic: bool, sym: usize, off: u64) -> Address {
 
 /// One generated input (unit + line program + range/location lists + frame table),
 /// built either with symbolic or with resolved addresses, from the same seed.
-fn build(seed: u64, version: u16, symbolic: bool) -> (w::Dwarf, w::FrameTable) {
+fn build(seed: u64, version: u16, variant: u64, symbolic: bool) -> (w::Dwarf, w::FrameTable) {
     let mut rng = Rng::new(seed);
     let enc = Encoding { version, address_size: 8, format: Format::Dwarf32 };
     let a = |s: usize, o: u64| addr(symbolic, s, o);
@@ -332,23 +337,44 @@ fn build(seed: u64, version: u16, symbolic: bool) -> (w::Dwarf, w::FrameTable) {
     let uid = dwarf.units.add(w::Unit::new(enc, lp));
     let name = dwarf.strings.add(&b"a name"[..]);
     let unit = dwarf.units.get_mut(uid);
-    let ranges = unit.ranges.add(w::RangeList(vec![
-        w::Range::StartEnd { begin: a(0, 0x10), end: a(0, 0x20) },
-        w::Range::StartLength { begin: a(1, 0x100), length: 0x10 },
-        w::Range::BaseAddress { address: a(1, 0) },
-        w::Range::OffsetPair { begin: 4, end: 8 },
-    ]));
+    // variant 0: lists that carry their own addresses / base entry, no root low_pc;
+    // variant 1: root DW_AT_low_pc (symbolic in the recorded build) is the base address and the
+    //            lists consist of offset pairs only
     let mut ex = w::Expression::new();
     ex.op_addr(a(1, 0x30));
-    let locs = unit.locations.add(w::LocationList(vec![
-        w::Location::StartEnd { begin: a(0, 0x10), end: a(0, 0x18), data: ex.clone() },
-        w::Location::BaseAddress { address: a(0, 0x40) },
-        w::Location::OffsetPair { begin: 1, end: 2, data: w::Expression::new() },
-    ]));
+    let (ranges, locs) = if variant == 0 {
+        (
+            unit.ranges.add(w::RangeList(vec![
+                w::Range::StartEnd { begin: a(0, 0x10), end: a(0, 0x20) },
+                w::Range::StartLength { begin: a(1, 0x100), length: 0x10 },
+                w::Range::BaseAddress { address: a(1, 0) },
+                w::Range::OffsetPair { begin: 4, end: 8 },
+            ])),
+            unit.locations.add(w::LocationList(vec![
+                w::Location::StartEnd { begin: a(0, 0x10), end: a(0, 0x18), data: ex.clone() },
+                w::Location::BaseAddress { address: a(0, 0x40) },
+                w::Location::OffsetPair { begin: 1, end: 2, data: w::Expression::new() },
+            ])),
+        )
+    } else {
+        (
+            unit.ranges.add(w::RangeList(vec![
+                w::Range::OffsetPair { begin: 4, end: 8 },
+                w::Range::OffsetPair { begin: 0x10, end: 0x20 + rng.below(8) },
+            ])),
+            unit.locations.add(w::LocationList(vec![
+                w::Location::OffsetPair { begin: 1, end: 2, data: ex.clone() },
+                w::Location::OffsetPair { begin: 8, end: 0x10, data: w::Expression::new() },
+            ])),
+        )
+    };
     let root = unit.root();
     {
         let r = unit.get_mut(root);
         r.set(gimli::DW_AT_name, w::AttributeValue::StringRef(name));
+        if variant == 1 {
+            r.set(gimli::DW_AT_low_pc, w::AttributeValue::Address(a(0, 0)));
+        }
         r.set(gimli::DW_AT_ranges, w::AttributeValue::RangeListRef(ranges));
     }
     let ty = unit.add(root, gimli::DW_TAG_base_type);
@@ -510,18 +536,27 @@ fn record_inner(out: &str, a: &Args) {
     let mut evs: Vec<Value> = Vec::new();
     for i in 0..n {
         let version = [4u16, 5, 3, 2][(i % 4) as usize];
+        let variant = (i / 4) % 2;
         // recorded: symbolic addresses through the RelocateWriter
-        let (mut d1, f1) = build(seed + i, version, true);
+        let (mut d1, f1) = build(seed + i, version, variant, true);
         let mut s1 = w::Sections::new(Section::new());
-        d1.write(&mut s1).expect("write recorded");
+        let r1 = d1.write(&mut s1);
         let mut df1 = w::DebugFrame::from(Section::new());
         f1.write_debug_frame(&mut df1).expect("write recorded frame");
         // direct: resolved addresses through a plain EndianVec
-        let (mut d2, f2) = build(seed + i, version, false);
+        let (mut d2, f2) = build(seed + i, version, variant, false);
         let mut s2 = w::Sections::new(EndianVec::new(LittleEndian));
-        d2.write(&mut s2).expect("write direct");
+        let r2 = d2.write(&mut s2);
         let mut df2 = w::DebugFrame::from(EndianVec::new(LittleEndian));
         f2.write_debug_frame(&mut df2).expect("write direct frame");
+        let oc = |r: &w::Result<()>| match r {
+            Ok(()) => "ok".to_string(),
+            Err(e) => vname(e),
+        };
+        evs.push(json!({"ev":"WOutcome","ver":version,"variant":variant,"rec":oc(&r1),"dir":oc(&r2)}));
+        if r1.is_err() || r2.is_err() {
+            continue;
+        }
         let mut direct: HashMap<SectionId, Vec<u8>> = HashMap::new();
         s2.for_each(|id, d| -> Result<(), ()> {
             direct.insert(id, d.slice().to_vec());
